@@ -25,7 +25,8 @@ def byte_pool() -> Dict[str, bytes]:
     vals = [b"", b"\x00", b"a\x00\x00", b"\x00\x00\x00\x00", b"x", b"\x7f\x7f", b"\x7f\x00", b"\x00\x7f", b"\x1a",
             b"\xff\xfe\xfd", bytes(range(256)), b"A" * 63, b"B" * 64, b"G" * 64, b"C" * 65, b"D" * 1023, b"E" * 1024, b"F" * 1025,
             b"text with newline\n", "äöü ✓".encode(), b"\x89HDF\r\n\x1a\n", b"ih5_v01\n1024\n{}\x00",
-            bytes(range(256)) * 4097 + b"end"]     # a little more than 1 MiB (buffer / mmap thresholds)
+            bytes(range(256)) * 4097 + b"end",     # a little more than 1 MiB (buffer / mmap thresholds)
+            b"zero-nibble-19", b"zero-nibble-29"]   # SHA-256 digests that start with 00 / 0 (numeric round trips of the hex text)
     return {f"b{k}": v for k, v in enumerate(vals)}
 
 
@@ -144,6 +145,35 @@ def observe(drv: CL.Driver, km, tk, rng, env_snap, originals, nq: int) -> Dict[s
                                  "is_instance": False, "eq": False, "contains": False, "listed": False,
                                  "err": type(ex).__name__ + ": " + str(ex)[:100]})
         rec["gets"] = gets
+        # handles obtained earlier (restricted to read-only, metadata looked at once) must show the current metadata of
+        # their node: listing and lookups through a held handle = through a fresh one
+        stale: List[str] = []
+        held = getattr(drv, "held", {})
+        for pth, h in list(held.items()):
+            try:
+                if pth not in drv.mc:
+                    del held[pth]
+                    continue
+                fresh = drv.mc[pth]
+                a_, b_ = sorted(h.meta.keys()), sorted(fresh.meta.keys())
+                if a_ != b_:
+                    stale.append(f"{pth}: held handle lists {a_}, fresh handle {b_}")
+                    continue
+                for sname in b_:
+                    if (h.meta.get(sname) is None) or h.meta.get(sname) != fresh.meta.get(sname) or sname not in h.meta:
+                        stale.append(f"{pth}: held handle does not return the current {sname} object")
+            except Exception as ex:
+                stale.append(f"{pth}: held handle raised {type(ex).__name__}: {str(ex)[:60]}")
+                held.pop(pth, None)
+        rec["held"] = stale[:4]
+        if len(held) < 3 and rec["tree"]:
+            n_ = rng.choice(rec["tree"])
+            pth = km.path(n_["p"])
+            if pth not in held:
+                h = drv.mc[pth].restrict(read_only=True)
+                list(h.meta.keys())
+                held[pth] = h
+        drv.held = held
         rec["files"] = file_observations(drv, km)
         rec["index_live"] = CL.index_snapshot(drv.mc)
         rec["index_fresh"] = CL.index_snapshot(CL.MetadorContainer(drv.raw))
@@ -151,6 +181,7 @@ def observe(drv: CL.Driver, km, tk, rng, env_snap, originals, nq: int) -> Dict[s
         rec["obs_err"] = type(ex).__name__ + ": " + str(ex)[:300] + " | " + traceback.format_exc()[-400:]
         for k in ("tree", "meta", "links", "schemas", "pkgs", "empties", "weird", "uview", "uvisit", "uextra", "queries", "gets", "files"):
             rec.setdefault(k, [])
+        rec.setdefault("held", [])
         rec.setdefault("ident", "")
         rec.setdefault("ident_ok", True)
         rec.setdefault("index_live", "")
@@ -421,7 +452,7 @@ def run_history(job: Dict[str, Any], emit, scratch: Path, tk: h5lib.Tokens, env:
                         o = {"drv": d.kind, "timeout": False, "obs_err": "boundary/reopen failed: " + broken[1],
                              "tree": [], "meta": [], "links": [], "schemas": [], "pkgs": [], "empties": [], "weird": [],
                              "uview": [], "uvisit": [], "uextra": [], "queries": [], "gets": [], "files": [], "index_live": "",
-                             "index_fresh": "", "ident": "", "ident_ok": True, "ok": False, "exc": broken[1]}
+                             "index_fresh": "", "ident": "", "ident_ok": True, "held": [], "ok": False, "exc": broken[1]}
                     else:
                         o = observe(d, km, tk, rng, snap, originals, 0)
                         o.update(ok=True, exc="")
@@ -514,6 +545,7 @@ def run_history(job: Dict[str, Any], emit, scratch: Path, tk: h5lib.Tokens, env:
                     d.raw.close()
                     d.raw = type(d.raw)(tgt, "r+")
                     d.mc = CL.MetadorContainer(d.raw)
+                    d.held = {}     # handles of the closed source record are gone
                 o = observe(d, km, tk, rng, snap, originals, 0)
                 o.update(ok=True, exc="")
                 out.append(o)
